@@ -430,12 +430,10 @@ fn canonical_order(idx: &[u32]) -> Vec<u32> {
 }
 
 struct Plan {
-    /// (n, k, search bound): parameter set and the number of (input, nonce) instances searched at most
-    sets: Vec<(u32, u32, usize)>,
-    /// full mutation suites (every bit of solution, input, nonce) per parameter set
-    full_suites: usize,
-    /// further solutions per set that get the light suite (solution itself, swaps, a bit sample)
-    light_solutions: usize,
+    /// (n, k, search bound, full suites, light suites): parameter set, the number of (input, nonce)
+    /// instances searched at most, how many solutions get the full mutation suite (every bit of
+    /// solution, input, nonce) and how many more the light one (solution, swaps, a bit sample)
+    sets: Vec<(u32, u32, usize, usize, usize)>,
     /// instances per set on which the near-solutions (repeated indices, relaxed collisions, ...) and
     /// the random strings are produced
     harvest_instances: usize,
@@ -632,7 +630,11 @@ fn harvest(
 ) -> Vec<Vec<u32>> {
     let mut s = wagner(p, leaves, None, true, rng);
     // prefer the pseudo-solutions with the fewest repeated indices (closest to a real solution)
-    s.dups.sort_by_key(|d| std::cmp::Reverse(d.iter().collect::<BTreeSet<_>>().len()));
+    if s.dups.len() > 4000 {
+        s.dups.shuffle(rng);
+        s.dups.truncate(4000);
+    }
+    s.dups.sort_by_cached_key(|d| std::cmp::Reverse(d.iter().collect::<BTreeSet<_>>().len()));
     for d in s.dups.iter().take(8) {
         counts[0] += 1;
         log_candidate(w, st, p, "wagner_dup", input, nonce, &encode(p, d), Some(h), Some(false));
@@ -685,33 +687,34 @@ fn run_sols(out: &str, tier: &str) -> Value {
     let mut w = NdjsonWriter::create(out);
     let mut st = Stats { records: 0, accepted: 0, rejected: 0, panics: 0, by_kind: Default::default(), harness_expectation_mismatch: 0 };
     // Solutions with 2^k distinct indices out of 2^(c+1) are rare when 2^k is close to 2^(c+1):
-    // about 1 instance in 100 for (56,6) and (72,7), 1 in 20 000 for (64,7); hence the search bounds.
+    // about 1 instance in 30 for (56,6), 1 in 1500 for (72,7); hence the search bounds. For (64,7)
+    // (128 of 512 indices) none was found in 300 000 instances: that set contributes near-solutions,
+    // random strings and wrong lengths only.
     let plan = if tier == "quick" {
         Plan {
-            sets: vec![(48, 5, 400), (32, 3, 400), (40, 4, 400), (56, 6, 3000), (72, 7, 3000), (40, 3, 400), (48, 3, 400), (64, 3, 60)],
-            full_suites: 1,
-            light_solutions: 3,
+            sets: vec![
+                (48, 5, 400, 1, 3), (32, 3, 400, 1, 3), (40, 4, 400, 1, 3), (56, 6, 3000, 1, 2), (72, 7, 8000, 1, 1),
+                (40, 3, 400, 1, 3), (48, 3, 400, 1, 3), (64, 3, 60, 1, 3),
+            ],
             harvest_instances: 2,
         }
     } else {
         Plan {
             sets: vec![
-                (48, 5, 2000), (32, 3, 2000), (40, 4, 2000), (56, 6, 20000), (64, 7, 400000), (72, 7, 20000), (40, 3, 2000),
-                (80, 7, 4000), (48, 3, 2000), (72, 5, 2000), (64, 3, 400), (80, 4, 400), (96, 5, 400), (80, 3, 12),
+                (48, 5, 2000, 3, 12), (32, 3, 2000, 3, 12), (40, 4, 2000, 3, 12), (56, 6, 20000, 2, 6), (64, 7, 5, 0, 0),
+                (72, 7, 40000, 1, 4), (40, 3, 2000, 3, 12), (80, 7, 4000, 1, 4), (48, 3, 2000, 3, 12), (72, 5, 2000, 2, 8),
+                (64, 3, 400, 2, 8), (80, 4, 400, 2, 6), (96, 5, 400, 2, 6), (80, 3, 12, 1, 2),
             ],
-            full_suites: 3,
-            light_solutions: 12,
             harvest_instances: 5,
         }
     };
     let mut per_set = vec![];
-    for (n, k, search_bound) in &plan.sets {
+    for (n, k, search_bound, want_full, want_light) in &plan.sets {
         let p = P::new(*n, *k);
         let big = p.c >= 20;
+        let (want_full, want_light) = (*want_full, *want_light);
         let (mut full_done, mut light_done, mut instances, mut solutions_found) = (0usize, 0usize, 0usize, 0usize);
         let mut counts = [0usize; 4];
-        let want_full = if big { 1 } else { plan.full_suites };
-        let want_light = if big { 2 } else { plan.light_solutions };
         let harvest_n = if big { 1 } else { plan.harvest_instances };
         while instances < *search_bound && (full_done < want_full || light_done < want_light || instances < harvest_n) {
             instances += 1;
